@@ -36,6 +36,10 @@ type segCase struct {
 	// receiver rejects but that is well delimited (unknown type with a body, a
 	// payload message shorter than its fixed part, a list shorter than its count)
 	Raw []string `json:"raw,omitempty"`
+	// reader path only: the read that delivers the last bytes of the stream returns
+	// io.EOF with them; single reads at these offsets return (0, nil) first
+	EOFWithData bool  `json:"eof_with_data,omitempty"`
+	Empty       []int `json:"empty_reads_at,omitempty"`
 }
 
 type segResult struct {
@@ -129,8 +133,18 @@ func runSeg(c segCase) (*segResult, *fail) {
 			abs = append(abs, base+sp)
 		}
 		s.C2S.SetSplits(abs)
+		var empty []int
+		for _, e := range c.Empty {
+			empty = append(empty, base+e)
+		}
+		s.C2S.EmptyReadsAt(empty)
+		s.C2S.EOFWithData(c.EOFWithData)
 		before := s.S2C.Written()
-		s.Send(stream)
+		if c.EOFWithData {
+			s.C2S.WriteFinal(stream)
+		} else {
+			s.Send(stream)
+		}
 		if !s.Close(20 * time.Second) {
 			return nil, failf("handle-did-not-return", "Handle did not return after the stream ended (splits %v, cut %d)", c.Splits, c.CutAt)
 		}
@@ -598,6 +612,20 @@ func TestC17(t *testing.T) {
 					if h.report("server", runSegCase(c), c) {
 						return
 					}
+					if path == "reader" {
+						// the same split with an empty read in front of the second part, and
+						// with the end of the stream reported together with the last bytes
+						c.Empty = []int{a}
+						h.Case(segHash(c)+1, true, "server:empty-read:reader")
+						if h.report("server", runSegCase(c), c) {
+							return
+						}
+						c.Empty, c.EOFWithData = nil, true
+						h.Case(segHash(c)+2, true, "server:eof-with-last-bytes:reader")
+						if h.report("server", runSegCase(c), c) {
+							return
+						}
+					}
 				}
 				for b := a + 1; b < len(stream); b++ {
 					if path == "socket" && !env.Thorough() && (a+b)%3 != 0 {
@@ -670,6 +698,19 @@ func TestC17(t *testing.T) {
 		default:
 			for k := rapid.IntRange(0, 8).Draw(rt, "ns"); k > 0; k-- {
 				c.Splits = append(c.Splits, rapid.IntRange(1, len(stream)-1+1).Draw(rt, "sp"))
+			}
+			sort.Ints(c.Splits)
+		}
+		if c.Path == "reader" {
+			// deliveries io.Reader allows besides plain splits
+			c.EOFWithData = rapid.IntRange(0, 2).Draw(rt, "eofdata") == 0
+			for k := rapid.IntRange(0, 2).Draw(rt, "nempty"); k > 0 && rapid.Bool().Draw(rt, "empty"); k-- {
+				// (an empty read happens where a read starts: at a split)
+				e := rapid.IntRange(0, len(stream)-1).Draw(rt, "emptyat")
+				c.Empty = append(c.Empty, e)
+				if e > 0 {
+					c.Splits = append(c.Splits, e)
+				}
 			}
 			sort.Ints(c.Splits)
 		}
